@@ -210,6 +210,34 @@ func init() {
 			return res + fmt.Sprintf(" parse=%s:%s:%s", hexE(*ia.LockingScriptPrefix), hexE([]byte(ia.ContentType)), hexE(ia.Data))
 		})
 	}
+	// C20.reinsc <prefix> <ct1> <d1> <ct2> <d2>: inscribe (ct1,d1); parse that output's script; inscribe (ct2,d2) in another
+	// transaction through the *parsed* arguments' prefix (which the library hands out as a slice of the first script);
+	// then parse both scripts: each must still give its own content.
+	executors["C20.reinsc"] = func(a []string) string {
+		return safe(func() string {
+			show := func(ls *bscript.Script) string {
+				ia, err := ls.ParseInscription()
+				if err != nil {
+					return "err-" + strings.ReplaceAll(err.Error(), " ", "_")
+				}
+				return fmt.Sprintf("%s:%s:%s", hexE(*ia.LockingScriptPrefix), hexE([]byte(ia.ContentType)), hexE(ia.Data))
+			}
+			tx1 := bt.NewTx()
+			if err := tx1.Inscribe(&bscript.InscriptionArgs{LockingScriptPrefix: scr(unE(a[0])), ContentType: string(unE(a[1])), Data: unE(a[2])}); err != nil {
+				return "err1-" + strings.ReplaceAll(err.Error(), " ", "_")
+			}
+			ls1 := tx1.Outputs[0].LockingScript
+			ia, err := ls1.ParseInscription()
+			if err != nil {
+				return "parse1=err-" + strings.ReplaceAll(err.Error(), " ", "_")
+			}
+			tx2 := bt.NewTx()
+			if err := tx2.Inscribe(&bscript.InscriptionArgs{LockingScriptPrefix: ia.LockingScriptPrefix, ContentType: string(unE(a[3])), Data: unE(a[4])}); err != nil {
+				return "err2-" + strings.ReplaceAll(err.Error(), " ", "_")
+			}
+			return "ok first=" + show(ls1) + " second=" + show(tx2.Outputs[0].LockingScript)
+		})
+	}
 	// C20.specific <txdesc> <inputIdx> <satIdx> <extraScript> <prefix> <ct> <data>
 	executors["C20.specific"] = func(a []string) string {
 		return safe(func() string {
@@ -485,6 +513,41 @@ func genC20(e *emitter, tier string, seed uint64) {
 		res := e.run("C20.insc", hexE(pre), hexE(ct), hexE(data))
 		e.note("insc." + strings.SplitN(strings.Fields(res)[len(strings.Fields(res))-1], ":", 2)[0][:8])
 		e.note(fmt.Sprintf("insc.datalen.%s", pushBucket(dl)))
+	}
+	// content-type length x payload length at the push-form boundaries, payloads starting with zero bytes (the parser
+	// walks over the content type's push to find the payload's)
+	for _, cl := range []int{0, 1, 74, 75, 76, 77, 255, 256, 257} {
+		for _, dl := range []int{0, 1, 2, 3, 75, 76, 77, 255, 256, 65535, 65536, 65537} {
+			for _, zero := range []int{0, 1, 2} {
+				if dl < zero || (zero > 0 && dl == 0) || (quick && dl > 60000 && cl != 75 && cl != 76 && cl != 0) {
+					continue
+				}
+				data := r.bytes(dl)
+				for i := 0; i < dl; i++ {
+					if data[i] == 0 {
+						data[i] = 1
+					}
+				}
+				if zero == 1 {
+					data[0] = 0
+				} else if zero == 2 && dl >= 2 {
+					data[1] = 0
+				}
+				e.run("C20.insc", hexE(p2pkhOf(genKey(r))), hexE(r.bytes(cl)), hexE(data))
+				e.note("insc.grid")
+			}
+		}
+	}
+	// a second inscription made through the arguments parsed out of a first one
+	for n := 0; n < nInsc/4; n++ {
+		k := genKey(r)
+		cts := []string{"text/plain;charset=utf-8", "image/png", "application/json", "a", ""}
+		d1, d2 := r.bytes(r.n(120)), r.bytes(r.n(120))
+		if r.chance(30) {
+			d2 = r.bytes(len(d1))
+		}
+		e.run("C20.reinsc", hexE(p2pkhOf(k)), hexE([]byte(cts[r.n(len(cts))])), hexE(d1), hexE([]byte(cts[r.n(len(cts))])), hexE(d2))
+		e.note("reinsc")
 	}
 	// InscribeSpecificOrdinal: the chosen satoshi must land in the inscription output
 	for n := 0; n < nInsc/4; n++ {
